@@ -144,6 +144,11 @@ def run_pair(sub, scenarios, jobs=None, extra_driver_args=(), extra_vh_args=(), 
         for a, b in ex.map(one, parts):
             impl.update(a)
             model.update(b)
+    # the NETS line is rendered from the Debug text of a private structure: if the implementation side could not produce it
+    # (fields renamed), the model's lines are dropped too and the comparison of network settings is skipped
+    if model and not any(l.startswith("NETS ") for out in impl.values() for l in out):
+        for nm in model:
+            model[nm] = [l for l in model[nm] if not l.startswith("NETS ")]
     # a scenario on which the *model* did not finish in time says nothing about the code (the driver is quadratic and the
     # machine may be loaded): it is dropped from the comparison and counted; many of them at once are reported by the caller
     slow = [nm for nm, out in model.items() if out and out[0].endswith("-timeout")]
